@@ -82,5 +82,7 @@ Plan generate(uint64_t seed, const std::string& focus);
 Plan generate_diff(uint64_t seed);
 // identifier exhaustion (65535 + n outstanding QoS 1 publishes) and identifier leak (70000 rejected requests) scenarios (C08, C15)
 Plan generate_exhaust(uint64_t seed);
+// C20: one short exchange per (category, reason-code byte, chunking); index = chunk * 2304 + category * 256 + byte
+Plan generate_rc(uint64_t index);
 
 } // namespace app
